@@ -301,6 +301,13 @@ func (c *FnCtx) frameCall(callee string) {
 
 // havocClause havocs the location(s) named by a modifies clause.
 func (c *FnCtx) havocClause(env *Env, m Clause) {
+	if m.Pkg != "" {
+		if p := c.g.typesPkgs[m.Pkg]; p != nil && p != env.pkg {
+			ne := *env
+			ne.pkg = p
+			env = &ne
+		}
+	}
 	defer func() {
 		if r := recover(); r != nil {
 			if se, ok := r.(specErr); ok {
@@ -383,6 +390,29 @@ func (c *FnCtx) frameCalleeElems(s Val) {
 	}
 	env := c.preEnv()
 	env.heap = c.entry
+	// element type covered wholesale by heap(T.f) / pkgheap clauses of the caller?
+	if st, ok := s.Ty.Underlying().(*types.Slice); ok && isStruct(st.Elem()) {
+		su := st.Elem().Underlying().(*types.Struct)
+		all := true
+		for i := 0; i < su.NumFields(); i++ {
+			if isArray(su.Field(i).Type()) {
+				continue
+			}
+			l := location{arr: c.fieldHeap(st.Elem(), i), a1: "0"}
+			cov := false
+			for _, m := range c.fc.Modifies {
+				if c.frameCoversWhole(env, m, l) {
+					cov = true
+				}
+			}
+			if !cov {
+				all = false
+			}
+		}
+		if all {
+			okc = append(okc, "true")
+		}
+	}
 	for _, m := range c.fc.Modifies {
 		if call, isCall := m.E.(*ECall); isCall {
 			if id, isID := call.Fun.(*EIdent); isID && id.Name == "elems" && len(call.Args) == 1 {
